@@ -813,6 +813,9 @@ func genC11(out *Out, r *Rng, tier string, n int, shard int) {
 	if shard == 0 {
 		emitC11Shapes(out)
 	}
+	for i := 0; i < 4*n; i++ {
+		emitPathHistory(out, r)
+	}
 }
 
 func init() { gens["C11"] = genC11 }
